@@ -808,9 +808,20 @@ func GenBig(seed, run uint64, tier, mode string) *plan.Plan {
 }
 
 // bigObs is everything observable of one register.
-func bigObsA(z *apd.BigInt) string {
+func bigObsA(z *apd.BigInt) (s string) {
+	defer func() {
+		// a register left in a state that cannot even be printed is reported
+		// like any other disagreement with the mirror
+		if r := recover(); r != nil {
+			switch r.(type) {
+			case hangSentinel, deadlockSentinel:
+				panic(r)
+			}
+			s = fmt.Sprintf("<unobservable: reading the register panics: %v>", r)
+		}
+	}()
 	var zero apd.BigInt
-	s := fmt.Sprintf("%s sign=%d bitlen=%d cmp0=%d i64=%v u64=%v tz=%d bytes=%x", z.String(), z.Sign(), z.BitLen(), z.Cmp(&zero), z.IsInt64(), z.IsUint64(), z.TrailingZeroBits(), z.Bytes())
+	s = fmt.Sprintf("%s sign=%d bitlen=%d cmp0=%d i64=%v u64=%v tz=%d bytes=%x", z.String(), z.Sign(), z.BitLen(), z.Cmp(&zero), z.IsInt64(), z.IsUint64(), z.TrailingZeroBits(), z.Bytes())
 	if z.IsInt64() {
 		s += fmt.Sprint(" int64=", z.Int64())
 	}
